@@ -417,6 +417,8 @@ def run_tlc(module: str, cfg: str, *, workers: int | str = 'auto', simulate: str
         m = _RE_INV.search(out)
         if m:
             res.violated = m.group(1)
+        elif 'Temporal properties were violated' in out:
+            res.violated = 'temporal'
         elif 'is violated' in out or 'was violated' in out:
             m2 = re.search(r'property (\S+) (?:is|was) violated', out)
             res.violated = m2.group(1) if m2 else 'property'
